@@ -7,6 +7,6 @@ mkdir -p bin evidence replays
 cp /repo/go.sum go/go.sum 2>/dev/null || true
 (cd go && go build -o ../bin/extract ./cmd/extract)
 ./bin/extract -repo /repo -out lean/ScriggoV/Gen || true
-(cd lean && lake build)
-(cd go && go build -tags verif -o ../bin/harness ./cmd/harness)
+(cd lean && lake build && for d in Drivers/C*.lean; do lake build driver_$(basename $d .lean); done)
+(cd go && for p in props/c*; do go build -tags verif -o ../bin/harness_$(basename $p | tr c C) ./$p; done)
 echo setup done
